@@ -34,6 +34,7 @@ var probes = map[string]bool{
 	"api.ServiceDetails.SetConnectionStateDetail": true,
 	"hub.Hub.HandleConnectionClosed":              true,
 	"hub.Hub.HandleShipHandshakeStateUpdate":      true,
+	"hub.Hub.initateConnection":                   true,
 }
 
 type edit struct {
